@@ -58,6 +58,12 @@ def run(fw):
         lab = 'h_equals[%s %d vs %d%s, symbolic %s]' % (KINDS[kind], na, nb, ' vs %d (transitivity)' % nb if trans else '', ATTR_NAMES[kind][attr])
         # shapes that only the thorough tier adds sit at the edge of feasibility (two children on a side whose matching loop
         # erases at a symbolic index): no verdict there is recorded as inconclusive, not as a failure of the check
+        if kind == 2 and attr in (3, 4) and fw.tier == 'quick':
+            # which variable a reset refers to: the solver needs 750-820 s per query (measured), beyond the budget of the check
+            # that runs on every change; quick tier = model/real differential only (not a solver verdict), thorough tier = solver
+            fw.differential(m, 'h_equals', H, seeds=40, defines=defs)
+            shutil.rmtree(m.dir, ignore_errors=True)
+            return
         edge = (na, nb) not in shapes(kind, 'quick') or (kind == 1 and attr in (3, 4, 5, 6, 7) and (na == 2 or nb == 2)) or (kind == 2 and attr in (3, 4))
         r = fw.cbmc(m, 'h_equals', unwind=6, unwindset=us, timeout=(600 if not edge else 900) if not (kind == 2 and attr in (3, 4)) else 1800, label=lab, symbolic=ATTR_NAMES[kind][attr] + ' of every child')
         if r['status'] != 'SUCCESS':
